@@ -983,6 +983,10 @@ class Explorer:
                     seq = self.ev(node.ast.iter, env)
                 except EvalRaise:
                     seq = UNKNOWN
+                if isinstance(seq, (type({}.items()), type({}.keys()), type({}.values()))):
+                    seq = tuple(seq)
+                elif isinstance(seq, dict):
+                    seq = tuple(seq)
                 if seq is not UNKNOWN and isinstance(seq, (tuple, list)):
                     ik = "__iter__%d" % node.id
                     idx = env.get(ik, 0)
